@@ -356,10 +356,55 @@ def run(ck):
     ck.verdict(0 < maxper <= 2, 'C12.b', 'encode:per-octet', ewhere, 'at most %d octets per payload octet' % maxper)
     open_close_ok = True
     detail = ''
+    # The opening step taken INSIDE the loop, in its first iteration only: a loop-carried flag that is c0 before the loop,
+    # is tested `== c0` in front of the step, and is something else on every back edge - so the step runs exactly once,
+    # at the first visit of the loop head (induction on the flag), and it runs before that iteration asks the source for
+    # anything.  That is the opening step in front of the loop, written differently.
+    first_iter = {}          # havoc atom of the flag -> c0
+    for p in eps:
+        for nd, lm in p.loops:
+            for k_, (h_, pre_) in lm.items():
+                if pre_ is not None and sym.is_c(strip_cast(pre_)) and isinstance(h_, tuple) and h_[0] == 'h':
+                    first_iter.setdefault(h_, (k_, strip_cast(pre_)[1], nd))
+    for h_, (k_, c0, nd) in list(first_iter.items()):
+        backs = [p for p in eps if p.end == 'loopback' and any(n2 is nd and lm.get(k_, (None,))[0] == h_ for n2, lm in p.loops)]
+        def not_c0(p):
+            v = strip_cast(sym.mem_read(p.mem, k_, h_))
+            if sym.is_c(v):
+                return v[1] != c0
+            # left as it was, on a path that knows it was not c0
+            return v == h_ and any((c[0] == 'cmp' and c[1] == '!=' and c[2] == h_ and c[3] == C(c0)) or
+                                   (c[0] == 'cmp' and c[1] == '==' and c[2] == h_ and sym.is_c(c[3]) and c[3][1] != c0) for c in p.cond_terms())
+        ok_flag = bool(backs) and all(not_c0(p) for p in backs)
+        if not ok_flag:
+            del first_iter[h_]
+
+    def opening_in_first_iteration(p, e):
+        """is the in-loop emission e the opening step of the first iteration on path p?"""
+        for h_, (k_, c0, nd) in first_iter.items():
+            if any(c == ('cmp', '==', h_, C(c0)) for c in p.cond_terms()):
+                gets = [x for x in p.effects if x.kind == 'call' and x.name == 'source_get_octet' and x.inloop]
+                return not gets or p.effects.index(e) < p.effects.index(gets[0])
+        return False
+
+    def opened_earlier(p):
+        """the path is in a later iteration: the flag is known not to be c0, so (induction) the opening step has run"""
+        for h_, (k_, c0, nd) in first_iter.items():
+            if any(c[0] == 'cmp' and c[1] == '!=' and c[2] == h_ and c[3] == C(c0) for c in p.cond_terms()) or \
+                    any(c[0] == 'cmp' and c[1] == '==' and c[2] == h_ and sym.is_c(c[3]) and c[3][1] != c0 for c in p.cond_terms()):
+                return True
+        return False
     for p in eps:
         if p.end != 'return':
             continue
-        pre = [e for e in p.effects if e.kind == 'call' and e.name in ('sink_put_octet', 'sink_put_chunk') and not e.inloop]
+        if opened_earlier(p):
+            # only the closing delimiter belongs to this path's own effects
+            post = [e for e in p.effects if e.kind == 'call' and e.name in ('sink_put_octet', 'sink_put_chunk') and not e.inloop]
+            if p.ret == C(0) and (len(post) != 1 or strip_cast(post[0].args[1]) != C(END)):
+                open_close_ok = False
+                detail = 'a frame opened in an earlier iteration is completed with %d delimiter(s) behind the loop, expected the one closing END' % len(post)
+            continue
+        pre = [e for e in p.effects if e.kind == 'call' and e.name in ('sink_put_octet', 'sink_put_chunk') and (not e.inloop or opening_in_first_iteration(p, e))]
         sof = any(c[0] == 'cmp' and c[1] == '==' and c[2][0] == '&b' and c[3] == C(1) for c in p.cond_terms())
         sof_decided = any(c[0] == 'cmp' and c[1] in ('==', '!=') and c[2][0] == '&b' and 'flags' in fmt(c[2]) for c in p.cond_terms())
         done = p.ret == C(0)
@@ -374,7 +419,8 @@ def run(ck):
                 open_close_ok = False
                 detail = 'frame delimiters emitted outside the payload loop: %d (sof=%s)' % (len(pre), sof)
     for p in eps:
-        raw_end_in_loop = [e for e in p.effects if e.kind == 'call' and e.inloop and e.name == 'sink_put_octet' and strip_cast(e.args[1]) == C(END)]
+        raw_end_in_loop = [e for e in p.effects if e.kind == 'call' and e.inloop and e.name == 'sink_put_octet' and strip_cast(e.args[1]) == C(END)
+                           and not opening_in_first_iteration(p, e)]
         if raw_end_in_loop:
             open_close_ok = False
             detail = 'a raw delimiter is emitted from inside the payload loop at %s: frame boundaries depend on the payload' % raw_end_in_loop[0].where()
